@@ -24,7 +24,8 @@ theorem syncJobTasks_simple (sp : Sys) (jo : JobObj) (s1 : Sys) (rjA : Job) (T1 
     (hquiet : ∀ pt, getPendingTimeout rjA s1.cfg = some pt → 0 < pt → ∀ t ∈ T1, PendQuiet s1.clock pt t)
     (hnodel : ∀ t ∈ T1, t.deletionTimestamp = none)
     (hgen : generateTaskRefs s1.clock (generateTaskRefs s1.clock rjA.status.tasks T1) T1 =
-      generateTaskRefs s1.clock rjA.status.tasks T1) :
+      generateTaskRefs s1.clock rjA.status.tasks T1)
+    (hT1fn : TasksFn T1) :
     ∃ s6, syncJobTasks sp jo jo.job = (s6, some (recompute s1.clock s1.d rjA T1)) ∧
       TimersOnly (jobKey jo) s1 s6 ∧
       ((recompute s1.clock s1.d rjA T1).status.condition.finished = none →
@@ -41,7 +42,8 @@ theorem syncJobTasks_simple (sp : Sys) (jo : JobObj) (s1 : Sys) (rjA : Job) (T1 
   subst hU2
   have hst2 := hU1.static
   -- pending tasks
-  obtain ⟨s3, hP, hP1, hP1'⟩ := handlePending_quiet s2 jo (recompute s1.clock s1.d rjA T1) T1 (by
+  obtain ⟨s3, hP, hP1, hP1'⟩ := handlePending_quiet s2 jo (recompute s1.clock s1.d rjA T1) T1
+    hT1fn s1.clock rjA.status.tasks (recompute_sameSpec s1.clock s1.d rjA T1).2.1 (by
     intro pt hpt hpos
     rw [hst2.1]
     apply hquiet pt _ hpos
@@ -79,12 +81,13 @@ theorem sync_simple (sp : Sys) (jo : JobObj) (s1 : Sys) (rjA : Job) (T1 : List T
     (hgen : generateTaskRefs s1.clock (generateTaskRefs s1.clock rjA.status.tasks T1) T1 =
       generateTaskRefs s1.clock rjA.status.tasks T1)
     (httl : ∀ fin, (recompute s1.clock s1.d rjA T1).status.condition.finished = some fin →
-      fin.finishTimestamp.getD zeroTime + getTTLAfterFinished (recompute s1.clock s1.d rjA T1) sp.cfg > sp.clock) :
+      fin.finishTimestamp.getD zeroTime + getTTLAfterFinished (recompute s1.clock s1.d rjA T1) sp.cfg > sp.clock)
+    (hT1fn : TasksFn T1) :
     ∃ s', sync sp jo = (s', recompute s1.clock s1.d rjA T1, jo.finalizer, true, false) ∧
       TimersOnly (jobKey jo) s1 s' ∧
       ((recompute s1.clock s1.d rjA T1).status.condition.finished = none →
         (∀ t ∈ T1, t.ref.finishTimestamp.isSome = true ∨ t.ref.runningTimestamp.isSome = true) → s' = s1) := by
-  obtain ⟨s6, h6, ht6, hex6⟩ := syncJobTasks_simple sp jo s1 rjA T1 hcreate hA hquiet hnodel hgen
+  obtain ⟨s6, h6, ht6, hex6⟩ := syncJobTasks_simple sp jo s1 rjA T1 hcreate hA hquiet hnodel hgen hT1fn
   have hF : SimpleSpec (recompute s1.clock s1.d rjA T1) := hA.recompute _ _ _
   have hst6 := ht6.static
   have hstage : syncTasksStage sp jo = (s6, some (recompute s1.clock s1.d rjA T1)) := by
